@@ -527,7 +527,8 @@ def gen_mc_case(rng, small=False):
                      'batch': rng.choice([1, 2, 128])})
     return {'part': 'B', 'dss': dss, 'shgs': shgs, 'n_signal': rng.choice([0, 1, 2, 3, 5, 8, 13, 21, 34, 50]),
             'reject': rng.choice([0, 20, 50, 80, 90, 95, 95]), 'range_on_dec': rng.random() < 0.3,
-            'aim_seed': rng.randrange(2 ** 31), 'poisson': rng.random() < 0.3, 'alt_shgs': None}
+            'aim_seed': rng.randrange(2 ** 31), 'poisson': rng.random() < 0.3, 'alt_shgs': None,
+            'reloc_field': None, 'reloc_reject': 25}
 
 
 def build_mc(env, case):
@@ -738,27 +739,42 @@ def run_mc_case(ctx, env, case, exprs, checks):
                 v = [int(ev['evid'][n_]), int(round(float(ev['q'][n_]) * 2)), quant(ev['ra'][n_]), quant(ev['dec'][n_]),
                      quant(ev['sin_dec'][n_])]
                 post_tab[(di, hi, impl_tbl[i][3], impl_tbl[i][1])] = v
-                vec_of[i] = (v, float(ev['dec'][n_]))
-    # optional validity range on the relocated declination (kept 1e-6 away from every value)
-    if case['range_on_dec']:
+                vec_of[i] = (v, {'ra': float(ev['ra'][n_]), 'dec': float(ev['dec'][n_]), 'sin_dec': float(ev['sin_dec'][n_])})
+    # validity range on a field that the relocation CHANGES (dec / ra / sin_dec): a window of the relocated values
+    # of the positive candidates, bounds >= 1e-6 away from every relocated value (the raw MC values of the same
+    # field are unrelated to the window, so masking before relocating lets invalid events through)
+    rf = case.get('reloc_field') or ('dec' if case.get('range_on_dec') else None)
+    if rf:
+        pos_ = {'ra': 2, 'dec': 3, 'sin_dec': 4}[rf]
+        rrng = __import__('random').Random(case['aim_seed'] + 1)
         for j in range(n_ds):
-            decs = sorted(d for i, (v, d) in vec_of.items() if impl_tbl[i][0] == j)
-            if len(decs) >= 4:
-                a, b = decs[len(decs) // 8], decs[-1 - len(decs) // 8]
-                lo_, hi_ = a - 3e-6, b + 3e-6
-                if all(abs(d - lo_) > 1e-6 and abs(d - hi_) > 1e-6 for d in decs):
-                    ranges[j]['dec'] = (lo_, hi_)
-                    ranges_pos[j].append((3, quant(lo_), quant(hi_)))
+            pc = [i for i in vec_of if impl_tbl[i][0] == j and float(tbl[i]['weight']) > 0]
+            vals = sorted({vec_of[i][1][rf] for i in pc})
+            if len(vals) < 3:
+                continue
+            keep = max(1, int(math.ceil(len(vals) * (100 - case.get('reloc_reject', 25)) / 100.0)))
+            for _try in range(30):
+                a = rrng.randrange(0, len(vals) - keep + 1)
+                lo_ = (vals[a - 1] + vals[a]) / 2 if a > 0 else vals[a] - 1e-3
+                b = a + keep - 1
+                hi_ = (vals[b] + vals[b + 1]) / 2 if b + 1 < len(vals) else vals[b] + 1e-3
+                inside = [i for i in pc if lo_ <= vec_of[i][1][rf] <= hi_]
+                if (all(abs(v_ - lo_) > 1e-6 and abs(v_ - hi_) > 1e-6 for v_ in vals)
+                        and {impl_tbl[i][2] for i in inside} == {impl_tbl[i][2] for i in pc}):
+                    ranges[j][rf] = (lo_, hi_)
+                    ranges_pos[j].append((pos_, quant(lo_), quant(hi_)))
+                    break
         gen.valid_event_field_ranges_dict_list = ranges
+        if any(rf in r for r in ranges):
+            ctx.count('B:range-on-relocated-field:' + rf)
 
     def is_valid(i):
-        v, dec = vec_of[i]
+        v, fl = vec_of[i]
         rd = ranges[impl_tbl[i][0]]
         ok = True
-        if 'q' in rd:
-            ok &= rd['q'][0] <= v[1] / 2 <= rd['q'][1]
-        if 'dec' in rd:
-            ok &= rd['dec'][0] <= dec <= rd['dec'][1]
+        for f_, (lo_, hi_) in rd.items():
+            val = v[1] / 2 if f_ == 'q' else fl[f_]
+            ok &= lo_ <= val <= hi_
         return ok
     if sampler_consistent(gen) is False:
         ctx.violation(site, 'stale-sampler', 'the RandomChoice sampler does not belong to the current candidate table',
@@ -797,6 +813,8 @@ def run_mc_case(ctx, env, case, exprs, checks):
     ctx.count(f'B:n_ds:{n_ds}')
     ctx.count(f'B:n_shg:{len(case["shgs"])}')
     ctx.count(f'B:redraw-batches:{min(len(rs.batches) - 1, 50) // 10 * 10}+')
+    if rf and any(rf in r for r in ranges) and rs.batches and any(not is_valid(i) for i in rs.batches[0]):
+        ctx.count('B:relocated-field-range-with-first-pass-rejection')
     for h in case['shgs']:
         for s in h['srcs']:
             ctx.count('B:source:' + s['pos'])
@@ -816,8 +834,8 @@ def run_mc_case(ctx, env, case, exprs, checks):
                 evid = v[0]
                 e = d_['events'][evid] if 0 <= evid < len(d_['events']) else None
                 cands = [c for c in brute if c['ds'] == k and c['ev'] == evid and c['wn'] > 0]
-                okq = ('q' not in rd or rd['q'][0] <= v[1] / 2 <= rd['q'][1]) and \
-                      ('dec' not in rd or rd['dec'][0] <= dec <= rd['dec'][1])
+                got_ = {'q': v[1] / 2, 'ra': ra, 'dec': dec, 'sin_dec': sdec}
+                okq = all(lo_ <= got_[f_] <= hi_ for f_, (lo_, hi_) in rd.items())
                 if not okq:
                     ctx.violation(site + '.generate_signal_events', 'invalid-event-returned',
                                   f'event {v} of dataset {k} violates {rd}', case=case,
@@ -1073,7 +1091,8 @@ def check_events(ctx, st, built, d, n_req, n_rep, tag):
             ra, dec = float(a['ra'][i]), float(a['dec'][i])
             cands = [c for c in st.brute if c['ds'] == k and c['ev'] == evid and c['wn'] > 0] \
                 if 0 <= evid < len(evs) else []
-            if ('q' in rd and not rd['q'][0] <= q <= rd['q'][1]) or not cands or q != evs[evid]['q']:
+            got_ = {'q': q, 'ra': ra, 'dec': dec, 'sin_dec': float(a['sin_dec'][i])}
+            if any(not lo_ <= got_[f_] <= hi_ for f_, (lo_, hi_) in rd.items()) or not cands or q != evs[evid]['q']:
                 ctx.violation(site, 'history:' + tag + ':bad-event', f'dataset {k} evid {evid} q {q} ranges {rd}',
                               case=case, predicate='valid event of a positive-weight candidate of its dataset')
                 continue
@@ -1432,6 +1451,14 @@ def run(ctx):
         case = gen_mc_case(ctx.rng, small=not ctx.thorough() or tried % 3 != 0)
         if tried % 3 == 1:
             case['alt_shgs'] = gen_mc_case(ctx.rng, small=True)['shgs']
+        quota = ctx.budget(10, 120)
+        if tried % 3 == 2 or (len(exprs) >= n_b - quota
+                              and ctx.stats.get('B:relocated-field-range-with-first-pass-rejection', 0) < quota):
+            # quota: validity range on a field changed by the relocation, rejecting 20..95 % in the first pass
+            case['reloc_field'] = ctx.rng.choice(['dec', 'dec', 'ra', 'sin_dec'])
+            case['reloc_reject'] = ctx.rng.choice([20, 40, 60, 80, 95])
+            case['reject'] = ctx.rng.choice([0, 0, 20])
+            case['n_signal'] = max(case['n_signal'], ctx.rng.choice([5, 8, 13, 21]))
         run_mc_case(ctx, env, case, exprs, checks)
     if checks:
         c = checks[-1][1]
